@@ -261,15 +261,10 @@ func (m *M) silent(p *SP, lazyCopy bool) bool {
 			p.names = live
 			return true
 		}
-		if len(p.names) > 1 {
-			m.copyProc(p)
-			return true
-		}
-		return false // waits for its client
+		return false // waits for its client (or, if multi-named, for its copy: an action)
 	}
 	if len(p.names) > 1 && p.eager && t.Op != "fwd" {
-		m.copyProc(p)
-		return true
+		return false // must be copied before it does anything: an action
 	}
 	switch t.Op {
 	case "print":
@@ -302,24 +297,12 @@ func (m *M) silent(p *SP, lazyCopy bool) bool {
 		p.t = t.Cont
 		return true
 	case "split":
-		c, _ := p.ch(t.X)
-		if m.prov[c] == nil {
-			return false
-		}
-		a, b := m.fresh(), m.fresh()
-		m.rename(c, []int{a, b}, true)
-		p.env = ext(p.env, t.Y, a, t.Z, b)
-		p.t = t.Cont
-		return true
+		return false // gives another process a second name: an action, its timing matters
 	case "fwd":
-		c, _ := p.ch(t.Y)
-		if m.prov[c] == nil {
-			return false
+		if len(p.names) > 1 {
+			return false // hands several names to another process: an action
 		}
-		names := p.names
-		m.kill(p)
-		m.rename(c, names, false)
-		return true
+		return m.doFwd(p)
 	}
 	// communication as a client
 	x, okx := p.ch(t.X)
@@ -406,6 +389,31 @@ func (m *M) silent(p *SP, lazyCopy bool) bool {
 	return false
 }
 
+func (m *M) doSplit(p *SP) bool {
+	t := p.t
+	c, _ := p.ch(t.X)
+	if m.prov[c] == nil {
+		return false
+	}
+	a, b := m.fresh(), m.fresh()
+	m.rename(c, []int{a, b}, true)
+	p.env = ext(p.env, t.Y, a, t.Z, b)
+	p.t = t.Cont
+	m.Steps++
+	return true
+}
+
+func (m *M) doFwd(p *SP) bool {
+	c, _ := p.ch(p.t.Y)
+	if m.prov[c] == nil {
+		return false
+	}
+	names := p.names
+	m.kill(p)
+	m.rename(c, names, false)
+	return true
+}
+
 // provider q continues as the provider of client p's names
 func (m *M) takeover(q, p *SP) {
 	for _, n := range q.names {
@@ -451,29 +459,31 @@ func (m *M) closure(bound int) bool {
 	}
 }
 
-// Lazy runs to quiescence firing prints as soon as they are enabled and copying only when
-// forced. Returns false if the step bound is hit (divergence).
+// Lazy runs to quiescence with the lazy copy discipline: prints fire as soon as they are
+// enabled, splits and forwards happen at once, a process is copied only when it cannot go
+// on otherwise (poised on its own channel, or declared with several names). Returns false if
+// the step bound is hit (divergence).
 func (m *M) Lazy(bound int) bool {
 	for {
 		if !m.closure(bound) {
 			return false
 		}
-		fired := false
-		for _, p := range m.procs {
-			for !p.dead && p.t.Op == "print" {
-				if _, at := p.selfAction(); at {
-					break
-				}
-				m.Prints = append(m.Prints, p.t.Lbl)
-				p.t = p.t.Cont
-				m.Steps++
-				fired = true
-				if m.Steps > bound {
-					return false
-				}
+		acts := m.actions()
+		done := false
+		for _, a := range acts {
+			if a.kind == aCopy && !a.forced {
+				continue
 			}
+			if l := m.apply(a); l != "" {
+				m.Prints = append(m.Prints, l)
+			}
+			done = true
+			break
 		}
-		if !fired {
+		if m.Steps > bound {
+			return false
+		}
+		if !done {
 			return true
 		}
 	}
@@ -667,11 +677,21 @@ func (m *M) mayCopy() bool {
 	return false
 }
 
+const (
+	aPrint = iota
+	aCopy
+	aSplit
+	aFwd
+)
+
 type action struct {
-	p    int // index into procs
-	copy bool
+	p      int // index into procs
+	kind   int
+	forced bool // a copy without which the process cannot go on
 }
 
+// actions lists the steps whose relative order matters: prints, copies of multi-named
+// processes, splits, and forwards that hand over several names.
 func (m *M) actions() []action {
 	var out []action
 	for i, p := range m.procs {
@@ -679,11 +699,27 @@ func (m *M) actions() []action {
 			continue
 		}
 		_, at := p.selfAction()
-		if !at && p.t.Op == "print" {
-			out = append(out, action{i, false})
+		multi := len(p.names) > 1
+		switch {
+		case multi && p.t.Op == "fwd":
+			if c, ok := p.ch(p.t.Y); ok && m.prov[c] != nil {
+				out = append(out, action{i, aFwd, false})
+			}
+		case multi && (at || p.eager):
+			out = append(out, action{i, aCopy, true})
+		case multi:
+			out = append(out, action{i, aCopy, false})
 		}
-		if !at && len(p.names) > 1 && p.t.Op != "fwd" {
-			out = append(out, action{i, true})
+		if at || (multi && p.eager) {
+			continue
+		}
+		switch p.t.Op {
+		case "print":
+			out = append(out, action{i, aPrint, false})
+		case "split":
+			if c, ok := p.ch(p.t.X); ok && m.prov[c] != nil {
+				out = append(out, action{i, aSplit, false})
+			}
 		}
 	}
 	return out
@@ -691,15 +727,23 @@ func (m *M) actions() []action {
 
 func (m *M) apply(a action) string {
 	p := m.procs[a.p]
-	if a.copy {
+	switch a.kind {
+	case aCopy:
 		m.copyProc(p)
 		m.compact()
-		return ""
+	case aSplit:
+		m.doSplit(p)
+	case aFwd:
+		m.doFwd(p)
+		m.Steps++
+		m.compact()
+	default:
+		l := p.t.Lbl
+		p.t = p.t.Cont
+		m.Steps++
+		return l
 	}
-	l := p.t.Lbl
-	p.t = p.t.Cont
-	m.Steps++
-	return l
+	return ""
 }
 
 // MS is a print multiset in canonical text form "a*2,b*1".
@@ -829,7 +873,7 @@ func (m *M) Admits(sigma []string, s *Search) (bool, bool) {
 		acts := c.actions()
 		hasPrint := false
 		for _, a := range acts {
-			if !a.copy {
+			if a.kind == aPrint {
 				hasPrint = true
 			}
 		}
@@ -847,7 +891,7 @@ func (m *M) Admits(sigma []string, s *Search) (bool, bool) {
 		}
 		res := false
 		for _, a := range acts {
-			if !a.copy {
+			if a.kind == aPrint {
 				if i >= len(sigma) || c.procs[a.p].t.Lbl != sigma[i] {
 					continue
 				}
@@ -855,7 +899,7 @@ func (m *M) Admits(sigma []string, s *Search) (bool, bool) {
 			d := c.clone()
 			d.apply(a)
 			ni := i
-			if !a.copy {
+			if a.kind == aPrint {
 				ni++
 			}
 			if rec(d, ni) {
